@@ -74,24 +74,6 @@ Proof.
   - erewrite bind_err; [|apply request_fail; exact Hh]. do 2 eexists. reflexivity.
 Qed.
 
-Lemma qualifier_stops prefix reg r : is_prefix (prefix ++ [47]) r = false -> failp (qualifier_parser prefix reg) r.
-Proof.
-  intros H o e a fr k. unfold qualifier_parser. apply failp_bind. clear o e a fr k.
-  intros o e a fr k. unfold qualifier_name_parser. cbv zeta. unfold byte in *.
-  remember (prefix ++ [47]) as p eqn:Ep.
-  destruct (has_n r (Z.to_nat (zlen p))) eqn:Hh.
-  - rewrite (bind_ok _ _ _ tt _ (request_ok _ o e a (fr :: k) (zlen p) Hh)).
-    unfold bind at 1. unfold buffer. cbn [endr off rest].
-    replace (o + zlen p - o) with (zlen p) by lia.
-    replace (zlen p <? 0) with false by (symmetry; apply Z.ltb_ge; apply zlen_nonneg).
-    assert (Hb : bytes_eqb (firstn (Z.to_nat (zlen p)) r) p = false).
-    { rewrite nat_zlen in *. unfold bytes_eqb. clear - H. revert r H. induction p as [|x t IH]; intros r H; [discriminate|].
-      destruct r as [|y u]; [reflexivity|]. cbn [length firstn list_eqb is_prefix] in *.
-      rewrite (Z.eqb_sym y x). destruct (x =? y); [cbn [andb] in *; apply IH; exact H|reflexivity]. }
-    unfold byte in *. rewrite Hb. cbn [negb]. do 2 eexists. reflexivity.
-  - erewrite bind_err; [|apply request_fail; exact Hh]. do 2 eexists. reflexivity.
-Qed.
-
 (* ---------- the table as the reader meets it *)
 Section Table.
   Variable r : registry.          (* the registry the writer consults *)
@@ -154,18 +136,19 @@ Section Table.
   Qed.
 
   (* a key line is neither a qualifier line nor ... *)
-  Lemma fhead_not_qualifier f X : fok f -> is_prefix (qprefix ++ [47]) (fhead f ++ X) = false.
+  Lemma fhead_not_qualifier f X : fok f -> is_prefix qprefix (fhead f ++ X) = false.
   Proof.
     intros (Hk & Hd & _). destruct (featkey_head _ Hk) as (c & t & E & Hc).
     unfold fhead, qprefix, kprefix, repeat_byte. rewrite E. rewrite <- !app_assoc. cbn [app].
-    apply is_prefix_pad; [lia|exact Hc].
+    pose proof (is_prefix_pad (Z.to_nat depth) (Z.to_nat np) [] c (t ++ repeat 32 (Z.to_nat (depth - (zlen (repeat 32 (Z.to_nat np)) + zlen (c :: t)))) ++ show (floc f) ++ X) ltac:(lia) Hc) as HP.
+    rewrite app_nil_r in HP. exact HP.
   Qed.
 
   Definition stops (post : list byte) : Prop :=
-    is_prefix kprefix post = false /\ is_prefix (qprefix ++ [47]) post = false.
+    is_prefix kprefix post = false /\ is_prefix qprefix post = false.
 
   Lemma ttext_not_qualifier fs last post : Forall fok fs -> stops post ->
-    is_prefix (qprefix ++ [47]) (ttext fs last ++ post) = false.
+    is_prefix qprefix (ttext fs last ++ post) = false.
   Proof.
     intros Hf [_ Hs]. destruct fs as [|f t]; [exact Hs|].
     inversion Hf; subst. destruct t as [|g t'].
@@ -176,18 +159,18 @@ Section Table.
 
   (* every qualifier name of the features still has a quoted reading in reg *)
   Definition names_ok (reg : registry) (fs : list feature) : Prop :=
-    forall f q, In f fs -> In q (quals f) -> quoted_type reg (fst q).
+    forall f q, In f fs -> In q (quals f) -> reg_ok r reg (fst q).
 
-  Lemma quoted_type_after reg qs n : quoted_type reg n -> quoted_type (regs_after reg qs) n.
+  Lemma reg_ok_after reg qs n : reg_ok r reg n -> reg_ok r (regs_after reg qs) n.
   Proof.
     revert reg. induction qs as [|q t IH]; intros reg H; [exact H|].
-    cbn [regs_after fold_left]. apply IH. now apply quoted_type_step.
+    cbn [regs_after fold_left]. apply IH. now apply reg_ok_step.
   Qed.
 
   Lemma qualifiers_parser_reads f rest_text last post reg o e a (fr : frame) k :
     Forall (qok r qprefix) (quals f) -> eol_post last post ->
-    is_prefix (qprefix ++ [47]) post = false ->
-    (forall q, In q (quals f) -> quoted_type reg (fst q)) ->
+    is_prefix qprefix post = false ->
+    (forall q, In q (quals f) -> reg_ok r reg (fst q)) ->
     rest_text = qtext r qprefix (quals f) last ++ post ->
     exists o' e' a',
       qualifiers_parser qprefix reg (mkst rest_text o e a (fr :: k)) =
@@ -195,8 +178,7 @@ Section Table.
   Proof.
     intros Hq Heol Hstop Hreg ->. destruct qprefix_facts as (Q1 & Q2 & Q3).
     unfold qualifiers_parser. unfold bind at 1. unfold get. cbn [rest apos].
-    destruct (qualifiers_loop_reads r qprefix Q1 Q2 Q3 (quals f) last post Hq Heol
-                (fun reg' => qualifier_stops qprefix reg' post Hstop)
+    destruct (qualifiers_loop_reads r qprefix Q1 Q2 Q3 (quals f) last post Hq Heol Hstop
                 (S (length (qtext r qprefix (quals f) last ++ post))) reg a [] o e a fr k Hreg) as (o' & e' & a' & E).
     - rewrite app_length.
       assert (Hlen : forall qs l, (length qs <= length (qtext r qprefix qs l))%nat).
@@ -212,7 +194,7 @@ Section Table.
   Qed.
 
   Lemma names_ok_tail reg f t : names_ok reg (f :: t) -> names_ok (regs_after reg (quals f)) t.
-  Proof. intros H g q Hg Hq. apply quoted_type_after. apply (H g q); [now right|exact Hq]. Qed.
+  Proof. intros H g q Hg Hq. apply reg_ok_after. apply (H g q); [now right|exact Hq]. Qed.
 
   (* what follows the head of a feature: the end of its line, its qualifiers, the rest *)
   Lemma after_head f t last post : 
@@ -250,7 +232,7 @@ Section Table.
                   Hk ltac:(rewrite zlen_kprefix; exact Hd) Hp HeolK o e a fr k) as (o1 & e1 & a1 & E1).
       rewrite <- ?app_assoc. rewrite <- ?app_assoc in E1.
       run ltac:(apply try_ok; exact E1).
-      assert (Hst : is_prefix (qprefix ++ [47]) Rest = false) by (subst Rest; now apply ttext_not_qualifier).
+      assert (Hst : is_prefix qprefix Rest = false) by (subst Rest; now apply ttext_not_qualifier).
       destruct (qualifiers_parser_reads f _ eolQ Rest reg o1 e1 a1 fr k Hq HeolQ Hst
                   (fun q Hin => Hnames f q (or_introl eq_refl) Hin) eq_refl) as (o2 & e2 & a2 & E2).
       run ltac:(exact E2).
@@ -366,7 +348,7 @@ Section Table.
     run ltac:(exact EF). cbv zeta. cbn [app].
     replace (np + zlen (fkey f) + (depth - (np + zlen (fkey f)))) with depth by lia.
     fold kprefix. fold qprefix.
-    assert (Hst : is_prefix (qprefix ++ [47]) Rest = false) by (subst Rest; now apply ttext_not_qualifier).
+    assert (Hst : is_prefix qprefix Rest = false) by (subst Rest; now apply ttext_not_qualifier).
     destruct (qualifiers_parser_reads f After eolQ Rest reg o1 e1 a1 fr k Hq HeolQ Hst
                 (fun q Hin => Hnames f q (or_introl eq_refl) Hin) eq_refl) as (o2 & e2 & a2 & E2).
     run ltac:(exact E2).
